@@ -1278,6 +1278,32 @@ fn c16_observe(runner: &Runner, prog: &Program, root: &str, rep: usize) -> Strin
             }
         }
     }
+    // ... and an empty directory named like a module that is imported but does not exist
+    for (p, text) in &prog.files {
+        let real = format!("{}{}", root, p.strip_prefix(SIM_ROOT).unwrap_or(p));
+        let dir = match Path::new(&real).parent() {
+            Some(d) => d.to_path_buf(),
+            None => continue,
+        };
+        for line in text.lines() {
+            let t = line.trim();
+            if let Some(rest) = t.strip_prefix("use ").or_else(|| t.strip_prefix("from ")) {
+                let name = rest.split_whitespace().next().unwrap_or("");
+                if name.is_empty() || name.starts_with('/') || !name.chars().all(|ch| ch.is_ascii_alphanumeric() || ch == '_') {
+                    continue;
+                }
+                let file = dir.join(format!("{}.sy", name));
+                let d = dir.join(name);
+                if !file.exists() {
+                    if rep % 4 == 3 {
+                        let _ = std::fs::create_dir_all(&d);
+                    } else {
+                        let _ = std::fs::remove_dir(&d);
+                    }
+                }
+            }
+        }
+    }
     let env: Vec<(String, String)> = ENVS[rep % ENVS.len()].iter().map(|(k, v)| (k.to_string(), v.to_string())).collect();
     if rep % 3 == 2 {
         // history through the file system: the output path still holds what an earlier compilation
@@ -1295,6 +1321,29 @@ fn c16_observe(runner: &Runner, prog: &Program, root: &str, rep: usize) -> Strin
         obs.target_bytes.as_ref().map(|b| (b.len(), fnv64(b))),
         out
     )
+}
+
+/// `-o -` from three working directories (the main file named absolutely, as a bare name, through its folder)
+/// with a relative `--require`: for an accepted program the bytes on stdout must be the same.
+fn c16_stdout_cwd_divergence(runner: &Runner, prog: &Program, root: &str) -> Option<String> {
+    let mut first: Option<(String, Vec<u8>)> = None;
+    for sp in ["absolute", "bare", "relative-dir"] {
+        let cell = Cell { mode: "stdout".into(), require: Some("./zz_req/glue.lua".into()), no_std: false, target: String::new(), peer: String::new(), input: "present".into(), spelling: sp.into(), fault: None, flags_last: false };
+        let o = runner.run_cell(prog, &cell, root, &[]);
+        if o.exit != Some(0) {
+            return None;
+        }
+        match &first {
+            None => first = Some((sp.to_string(), o.stdout)),
+            Some((sp0, b0)) => {
+                if *b0 != o.stdout {
+                    let common = b0.iter().zip(o.stdout.iter()).take_while(|(a, b)| a == b).count();
+                    return Some(format!("-o - with the main file given as {} vs as {} (another working directory): {} vs {} bytes on stdout, first difference at byte {}", sp0, sp, b0.len(), o.stdout.len(), common));
+                }
+            }
+        }
+    }
+    None
 }
 
 /// Run mode against a peer that fails without reading its input, under four schedules of the two
@@ -1327,7 +1376,7 @@ fn replay_c16(doc: &J, prog: &Program, runner: &Runner, id: &str) -> i32 {
         }
     }
     if first.starts_with("exit=Some(0)") {
-        if let Some(d) = c16_peer_schedule_divergence(runner, prog, &root) {
+        if let Some(d) = c16_peer_schedule_divergence(runner, prog, &root).or_else(|| c16_stdout_cwd_divergence(runner, prog, &root)) {
             println!("REPRODUCED {}", id);
             println!("{}", d);
             println!("VIOLATION property=C16 replay=<this file>");
@@ -1381,6 +1430,9 @@ pub fn run_c16_processes(tier: &str, batch_seed: u64) -> LayerBResult {
                 }
                 if diverged.is_none() && first.starts_with("exit=Some(0)") {
                     diverged = c16_peer_schedule_divergence(&runner, &prog, &root);
+                }
+                if diverged.is_none() && first.starts_with("exit=Some(0)") {
+                    diverged = c16_stdout_cwd_divergence(&runner, &prog, &root);
                 }
                 let mut r = result.lock().unwrap();
                 r.0 += 1;
